@@ -268,3 +268,12 @@ Theorem C06_source_order_matches_model :
   c06_compromised_suffix = [46; 99; 111; 109; 112; 114; 111; 109; 105; 115; 101; 100].
 Proof. vm_compute. repeat split. Qed.
 Print Assumptions C06_source_order_matches_model.
+
+(** hypotheses of [C06_reuse_keeps_key_obtain] on a reachable state: after an obtain with key reuse the
+    first key under the name is key 0. (In fault-free histories a key never lies under the name without a
+    complete bundle, so there the obtain is a no-op; the issuing branch is reached from torn saves: C07.) *)
+Example C06_reuse_obtain_hypotheses_met :
+  let cfg := Config 2 true false in
+  let a := snd (run_hop_pure cfg w6_sp (Oracle [None; w6_up 10] []) HObtain empty_core) in
+  first_key_i (k_st a) (issuers cfg) (s_pre w6_sp) = Some (1%nat, 0) /\ reuse cfg = true.
+Proof. vm_compute. split; reflexivity. Qed.
